@@ -29,6 +29,10 @@ CLAIMED = {
             "deterministic simulation: seeded push/reset/load/crash/IO-error histories on a fault-injecting node store, checked step by step against an RFC 6962 leaf-vector model",
             "Seeded search over operation/fault histories on the real storage-backed, in-memory and calculator trees; every step is compared with an independent RFC 6962 reference (root, count, every proof, refusals). Sampling, not enumeration: a clean batch is evidence, not proof.",
             "Trusted: the ~100-line RFC 6962 reference, SimKV's crash model (atomic loss of un-flushed writes; partial survival only without reset/fork in the window), SHA-256 from the sha2 crate."),
+    "C02": ("wire", "DESIGN.md §6 C02, §4.5",
+            "deterministic simulation: an encoder node writes real transactions / inputs / outputs / receipts through a fault-injecting canonical::Output, a medium truncates, flips, overwrites, zeroes, concatenates and appends, a decoder node reads through a fault-injecting canonical::Input; no-panic, consumed == size, decode∘encode fixed point, errors never swallowed",
+            "Seeded search over batches of records (all 6 transaction kinds from TransactionBuilder / constructors / TransactionFactory plus structural mutations, 7 input, 5 output, 13 receipt variants, policies and small types) crossed with explicit fault plans (torn write at byte k, truncation classes, bit flips, word overwrites aimed via a write-trace layout map at discriminants / length prefixes / counts / policy bits / index fields, zeroed block, concatenation, trailing garbage, wrong decoder, EOF at byte k, refused k-th read/skip/peek). Every Ok is checked for consumed == size() == to_bytes().len() and for decode(to_bytes()) == value; intact records must round-trip; a third of the runs is fault-free. Sampling, not enumeration: a clean batch is evidence, not proof.",
+            "Trusted: SimInput/SimOutput/medium (≈ 250 lines), the layout map used only for aiming faults, PartialEq of the repository types between two decoded values. Not decided: which malformed byte strings must be rejected (the property only demands no panic and a fixed point); memory use of the decoder (reported as a probe: a length prefix below VEC_DECODE_LIMIT makes Vec::with_capacity reserve up to tens of GiB before any element is read)."),
 }
 
 SMT_NOTE = "Trusted: the ~150-line compact-SMT reference (root/prove/verify by recursion on the bit index), SimKV's crash model (one atomic batch per completed tree operation), SHA-256 from the sha2 crate, collision resistance."
